@@ -19,6 +19,11 @@ Space 4 : comment bodies.  Every block-comment body of a small family (empty, ru
 Space 5 : literal variants.  Every INT / NUMBER token of every pool program replaced by each of
           13 literals (zeros, signed, leading zeros, exponents); the pool hits every literal
           position of the grammar; the accepted tree must carry the exact value.
+Space 6 : comments in front of an error.  Every structural near miss (deletion, duplication, adjacent
+          swap; thorough: every replacement too) of every pool program, and the program itself, with one
+          comment in every gap up to the first offending token; bodies include the characters that
+          Python's str.splitlines / Unicode treat as line boundaries but Jaqal does not (\r, \v, \f,
+          FS/GS/RS, NEL, LS, PS): only \n counts lines, so the reported position must not move.
 Oracle  : (i) accepted <=> derivable; (ii) accepted => S-expression == the model's tree;
           (iii) every layout gives the S-expression of the canonical layout; (iv) rejected =>
           JaqalParseError whose (line, column) is the start of a token at or after the model's
@@ -34,6 +39,7 @@ A *case* is small and replayable:
   ("cmt", toks, comments)         one text with explicit comment insertions (gap, kind, body)
   ("cmtb", prog, i, full)         space-4 bundle: comment i alone and with every second comment
   ("lit", prog)                   space-5 bundle: all literal variants of pool program prog
+  ("rejb", prog, i, all)          space-6 bundle: near misses at token i, one comment before the error
 Failures inside a bundle are reported against the narrow ("text", s) / ("lay", ...) form.
 """
 from mc import impl
@@ -136,6 +142,11 @@ BLOCK_BODIES = ("", " c ", "*", "**", "***", " c *", " c **", "* /", "/", "//", 
 LINE_BODIES = ("", " c", "/* c", "*/", "/* c */ g", "*", " c //")
 _PLAIN = (("B", " c "), ("L", " c"))
 assert not any("*/" in b for b in BLOCK_BODIES) and not any("\n" in b for b in LINE_BODIES)
+
+# space 6: bodies of the single comment placed in front of the first offending token
+REJ_BLOCK_BODIES = (" c ", "\n", " c\r c ", "\r\n", "\x0b", "\x0c", "\x1c", "\x1d", "\x1e", "\x85", "\u2028", "\u2029 c")
+REJ_LINE_BODIES = (" c", "\r", " c\r c", "\x0c c", "\x0b", "\x1c", "\x85", "\u2028 c", "\u2029")
+assert not any("*/" in b for b in REJ_BLOCK_BODIES) and not any("\n" in b for b in REJ_LINE_BODIES)
 
 # literal variants (space 5): substituted at every INT / NUMBER token of every pool program
 LITERALS = ("0", "-0", "-1", "+2", "00", "10", "0.0", "-0.0", "-0.5", "+1.5", "1.5e3", "2.0E-2", "0.5e+1")
@@ -414,7 +425,9 @@ class C02(Check):
         "all its one-step extensions (non-trivial = contains a comment or a separator exchange). space 4: one case = one "
         "comment (position, placement, body from 13 block / 7 line bodies) of a pool program alone and paired with every "
         "admissible second comment. space 5: one case = all 13 literal variants at every INT/NUMBER token of a pool "
-        "program (non-trivial = some variant is derivable). states = distinct model "
+        "program (non-trivial = some variant is derivable). space 6: one case = the structural near misses at one token of a "
+        "pool program, each with one comment (12 block / 9 line bodies incl. \\r \\v \\f FS GS RS NEL LS PS) in every gap up to the "
+        "first offending token (non-trivial = some near miss is rejected, so the position clause applies). states = distinct model "
         "configurations (body flag, block stack, statement position); transitions = (prefix configuration, token) shifts tried."
     )
     assumptions = (
@@ -435,11 +448,13 @@ class C02(Check):
             return {"alphabet": len(ALPHABET), "seeds": len(SEEDS), "depth": 5, "depth_principal": 6, "tail": 0,
                     "pool_programs": len(POOL), "layout_deviations": 2, "layout3_max_tokens": 0,
                     "block_comment_bodies": len(BLOCK_BODIES), "line_comment_bodies": len(LINE_BODIES),
-                    "comment_pairs_all_bodies_max_tokens": 12, "literal_variants": len(LITERALS)}
+                    "comment_pairs_all_bodies_max_tokens": 12, "literal_variants": len(LITERALS),
+                    "space6_comment_bodies": len(REJ_BLOCK_BODIES) + len(REJ_LINE_BODIES), "space6_mutants": "deletion, duplication, swap"}
         return {"alphabet": len(ALPHABET), "seeds": len(SEEDS), "depth": 7, "depth_principal": 7, "tail": 1,
                 "pool_programs": len(POOL), "layout_deviations": 3, "layout3_max_tokens": 16,
                 "block_comment_bodies": len(BLOCK_BODIES), "line_comment_bodies": len(LINE_BODIES),
-                "comment_pairs_all_bodies_max_tokens": 10 ** 6, "literal_variants": len(LITERALS)}
+                "comment_pairs_all_bodies_max_tokens": 10 ** 6, "literal_variants": len(LITERALS),
+                "space6_comment_bodies": len(REJ_BLOCK_BODIES) + len(REJ_LINE_BODIES), "space6_mutants": "all near misses"}
 
     def _depth(self, tier, sid):
         b = self.bounds(tier)
@@ -468,6 +483,8 @@ class C02(Check):
             for j in range(4):
                 out.append((4, pid, j))
         out.append((5,))
+        for pid in range(len(POOL)):
+            out.append((6, pid))
         return out
 
     def cases(self, tier, shard):
@@ -480,6 +497,8 @@ class C02(Check):
             return self._cases3(tier, shard[1], shard[2])
         if space == 4:
             return self._cases4(tier, shard[1], shard[2])
+        if space == 6:
+            return (("rejb", shard[1], i, 0 if tier == "quick" else 1) for i in range(len(POOL[shard[1]])))
         return (("lit", pid) for pid in range(len(POOL)))
 
     def _cases4(self, tier, pid, j):
@@ -590,6 +609,8 @@ class C02(Check):
             c = comment_deviations(POOL[case[1]])[case[2]]
             return "space4 %r with comment %r alone and with every second comment%s" % (
                 S.join(POOL[case[1]]), c, "" if case[3] else " (one of the two with a plain body)")
+        if k == "rejb":
+            return "space6 near misses at token %d of %r with one comment in front of the error" % (case[2], S.join(POOL[case[1]]))
         if k == "lit":
             return "space5 every literal variant at every INT/NUMBER token of %r" % (S.join(POOL[case[1]]),)
         if k == "layb":
@@ -705,6 +726,8 @@ class C02(Check):
             self._run_comment_bundle(case, ctx)
         elif k == "lit":
             self._run_literals(case, ctx)
+        elif k == "rejb":
+            self._run_reject_comments(case, ctx)
         else:
             raise ValueError("unknown case %r" % (case,))
 
@@ -883,6 +906,29 @@ class C02(Check):
                 self._check_variant(toks, render_comments(toks, (a, b)), ("cmt", toks, (a, b)), ctx, canon, True)
         ctx.transition(len(toks))
         ctx.nontriv(("cmt", pid, i))
+
+    # space 6 ---------------------------------------------------------------------------
+    def _run_reject_comments(self, case, ctx):
+        _, pid, i, allrep = case
+        toks = POOL[pid]
+        mutants = self.near_misses(toks, i) if allrep else self.near_misses(toks, i)[:3]
+        if i == 0:
+            mutants = [toks] + mutants
+        rejected = 0
+        for m in mutants:
+            m = tuple(m)
+            res = S.recognise(_model_tokens(m))
+            last = len(m) if res.ok else min(res.error_index, len(m))
+            rejected += 0 if res.ok else 1
+            for g in range(last + 1):
+                for b in REJ_BLOCK_BODIES:
+                    self.check_text(render_comments(m, ((g, "B", b),)), ctx, with_fuel=False)
+                if g == len(m) or m[g] == "\n":
+                    for b in REJ_LINE_BODIES:
+                        self.check_text(render_comments(m, ((g, "L", b),)), ctx, with_fuel=False)
+            ctx.transition(len(m))
+        if rejected:
+            ctx.nontriv(("rejb", pid, i))
 
     # space 5 ---------------------------------------------------------------------------
     def _run_literals(self, case, ctx):
